@@ -215,7 +215,7 @@ def parse_log(text):
         "verdict": None, "failed": [], "covers": [], "checks_total": None, "checks_failed": None,
         "symex_s": None, "solver_s": 0.0, "variables": None, "clauses": None, "verification_s": None,
         "status_error": "Status: ERROR" in text, "cbmc_failed": None, "concrete_vals": None,
-        "compile_error": False,
+        "compile_error": False, "out_of_memory": "run out of memory" in text or "ran out of memory" in text,
     }
     m = re.search(r"^VERIFICATION:- (\w+)", text, re.M)
     if m:
@@ -274,7 +274,7 @@ def classify(h, res):
     if res["timed_out"]:
         res["status"], res["reason"] = "inconclusive", "wall-clock cap of %ds exceeded" % h.timeout
         return
-    if res["verdict"] is None or res["cbmc_failed"] is not None or res["status_error"]:
+    if res["verdict"] is None or res["cbmc_failed"] is not None or res["status_error"] or res.get("out_of_memory"):
         res["status"], res["reason"] = "inconclusive", "no verdict (CBMC status %s, memory cap %d GB)" % (res["cbmc_failed"], h.mem_gb)
         return
     failed = res["failed"]
